@@ -637,6 +637,12 @@ def memo_attrs(ctx):
                     sources |= _value_sources(prog, e)
                 sources = {s_ for s_ in sources if s_ != (root, attr)
                            and not s_[1].startswith(attr) and not attr.startswith(s_[1] + "_")}
+                if not sources and not all(
+                        isinstance(assigned_value(e), ast.Constant) or (
+                            isinstance(assigned_value(e), ast.UnaryOp)) for e in fill_effs):
+                    # filled from arguments, not recomputed from the state: an index kept
+                    # beside the state (it is empty after a restore while the state is not)
+                    continue
                 resets = [e for e in effs if e in empties or e.op in ("clear",)]
                 reset_funcs = set()
                 for e in resets:
